@@ -62,14 +62,19 @@ pub fn dump<A: Automaton>(a: &A) -> Result<String, String> {
             a.is_match(sid) as u8,
             a.is_start(sid) as u8
         );
-        let ml = if a.is_match(sid) { a.match_len(sid) } else { 0 };
-        let matches = if ml == 0 {
-            ".".to_string()
-        } else {
-            (0..ml)
-                .map(|k| a.match_pattern(sid, k).as_usize().to_string())
-                .collect::<Vec<_>>()
-                .join(",")
+        // (a match list that cannot be read – a panic in `match_len` / `match_pattern`, or an absurd length – is
+        // dumped as the impossible pattern id 4294967295, so that the certificate fails AT THIS STATE with its path)
+        let listed = std::panic::catch_unwind(std::panic::AssertUnwindSafe(|| {
+            let ml = if a.is_match(sid) { a.match_len(sid) } else { 0 };
+            if ml > a.patterns_len().max(1) * 4 + 16 {
+                return None;
+            }
+            Some((0..ml).map(|k| a.match_pattern(sid, k).as_usize()).collect::<Vec<_>>())
+        }));
+        let matches = match listed {
+            Ok(Some(v)) if v.is_empty() => ".".to_string(),
+            Ok(Some(v)) => v.iter().map(|x| x.to_string()).collect::<Vec<_>>().join(","),
+            _ => "4294967295".to_string(),
         };
         let tys = if ty == tn { "=".to_string() } else { rle(&ty) };
         states.push(format!("{}/{}/{}/{}/{}", flags, matches, rle(&tn), tys, rle(&fl)));
